@@ -2608,6 +2608,14 @@ func (pid *PID) tryPassivation(reason string) bool {
 	pid.stopLocker.Lock()
 	defer pid.stopLocker.Unlock()
 
+	// The passivation manager calls this method with its own mutex released, so a concurrent
+	// Shutdown may have completed (and reset the state flags checked above) before the stop
+	// lock was acquired here. Stopping an already stopped actor would run PostStop twice.
+	if !pid.isStateSet(runningState) {
+		pid.logger.Debugf("actor=%s is offline, maybe stopped already: passivation skipped", pid.Name())
+		return false
+	}
+
 	if pid.compareAndSwapState(passivationSkipNextState, true, false) {
 		pid.logger.Debugf("passivation decision aborted for %s due to reinstate observed during critical section", pid.Name())
 		return false
